@@ -47,6 +47,8 @@ ASSUMPTIONS = [
 
 RUNTIME = "wamp.error.runtime_error"
 INVALID_PAYLOAD = "wamp.error.invalid_payload"
+PREMAPPED = {"wamp.error.invalid_payload": ("autobahn.wamp.exception", "SerializationError"),
+             "wamp.error.payload_size_exceeded": ("autobahn.exception", "PayloadExceededError")}
 RESERVED = ("enc_algo", "callee", "callee_authid", "callee_authrole", "forward_for")
 
 # (args, kwargs) payload menu
@@ -77,6 +79,9 @@ KINDS = {
     "dec_sub": ("com.myapp.dec_sub", True, True),
     "expl_args": ("com.myapp.expl_args", False, True),
     "expl_kw": ("com.myapp.expl_kw", True, True),
+    # application classes for URIs every session pre-maps to library classes
+    "dec_invalid": ("wamp.error.invalid_payload", True, True),
+    "expl_exceeded": ("wamp.error.payload_size_exceeded", True, True),
     # never registered
     "undef_runtime": (None, False, False),
     "undef_keyerror": (None, False, False),
@@ -84,7 +89,7 @@ KINDS = {
     "undef_kw": (None, True, False),
 }
 # caller side registrations for the wire URI
-RDEFS = ("none", "same", "fixed2", "noargs", "raises", "kwonly", "falsy")
+RDEFS = ("none", "same", "redef", "fixed2", "noargs", "raises", "kwonly", "falsy")
 
 
 # ---------------------------------------------------------------------------
@@ -186,7 +191,8 @@ def main(ctx):
               "ctor_fallback_expected", "runtime_error_uri", "registered_uri", "carried_uri",
               "traceback_forwarded", "kwargs_carried", "mode:sync", "mode:future", "mode:late",
               "mode:coro", "ser:json", "ser:msgpack", "ser:cbor", "ser:ubjson",
-              "unserializable_reported"):
+              "unserializable_reported", "redefined_class_surfaced",
+              "premapped_uri_class_surfaced"):
         ctx.require(n)
 
 
@@ -225,6 +231,16 @@ def classes():
     @wamp.error("com.myapp.dec_sub")
     class DecSub(DecBase):
         pass
+
+    @wamp.error("wamp.error.invalid_payload")
+    class DecInvalid(_Kw):
+        pass
+
+    class ExplExceeded(_Kw):
+        pass
+
+    class Old(_Kw):
+        """caller side class registered first for a URI that is then re-defined"""
 
     class ExplArgs(Exception):
         pass
@@ -278,14 +294,17 @@ def classes():
                      ExplArgs=ExplArgs, ExplKw=ExplKw, AppSub=AppSub, AppLike=AppLike,
                      UndefCustom=UndefCustom, UndefKw=UndefKw, RtKw=RtKw, Fixed2=Fixed2,
                      NoArgs=NoArgs, Raises=Raises, KwOnly=KwOnly, Falsy=Falsy,
+                     DecInvalid=DecInvalid, ExplExceeded=ExplExceeded, Old=Old,
                      ApplicationError=ApplicationError))
     return _CLS
 
 
 KIND_CLASS = {"dec_args": "DecArgs", "dec_kw": "DecKw", "dec_sub": "DecSub",
               "expl_args": "ExplArgs", "expl_kw": "ExplKw", "appsub": "AppSub",
-              "undef_custom": "UndefCustom", "undef_kw": "UndefKw"}
-DECORATED = ("dec_args", "dec_kw", "dec_sub")
+              "undef_custom": "UndefCustom", "undef_kw": "UndefKw",
+              "dec_invalid": "DecInvalid", "expl_exceeded": "ExplExceeded"}
+DECORATED = ("dec_args", "dec_kw", "dec_sub", "dec_invalid")
+EXPLICIT = ("expl_args", "expl_kw", "expl_exceeded")
 
 
 class _Unserializable:
@@ -328,24 +347,34 @@ def setup_registries(case, callee, caller, wire_uri_expected):
             callee.define(cls, uri)
     rdef = case["rdef"]
     if rdef == "none":
+        if wire_uri_expected in PREMAPPED:
+            # every session starts with the library's own class registered for these URIs
+            import importlib
+            mod, name = PREMAPPED[wire_uri_expected]
+            return getattr(importlib.import_module(mod), name)
         return None
-    if rdef == "same":
+    if rdef in ("same", "redef"):
+        # (class, URI it is registered under, decorated?)
         if kind in DECORATED:
             # decorated classes register under their own URI, whatever arrives
-            caller.define(C[KIND_CLASS[kind]])
-            return C[KIND_CLASS[kind]] if wire_uri_expected == uri else None
-        if kind in ("expl_args", "expl_kw"):
-            caller.define(C[KIND_CLASS[kind]], uri)
-            return C[KIND_CLASS[kind]] if wire_uri_expected == uri else None
-        if kind == "appsub":
-            caller.define(C["AppSub"], uri)
-            return C["AppSub"]
-        if kind in ("app", "app2"):
-            caller.define(C["AppLike"], uri)
-            return C["AppLike"]
-        # unregistered classes arrive under the generic URI: a class for that URI
-        caller.define(C["RtKw"], RUNTIME)
-        return C["RtKw"]
+            cls, reg_uri, deco = C[KIND_CLASS[kind]], uri, True
+        elif kind in EXPLICIT:
+            cls, reg_uri, deco = C[KIND_CLASS[kind]], uri, False
+        elif kind == "appsub":
+            cls, reg_uri, deco = C["AppSub"], uri, False
+        elif kind in ("app", "app2"):
+            cls, reg_uri, deco = C["AppLike"], uri, False
+        else:
+            # unregistered classes arrive under the generic URI: a class for that URI
+            cls, reg_uri, deco = C["RtKw"], RUNTIME, False
+        if rdef == "redef":
+            # an earlier registration for the same URI: the later define() replaces it
+            caller.define(C["Old"], reg_uri)
+        if deco:
+            caller.define(cls)
+        else:
+            caller.define(cls, reg_uri)
+        return cls if wire_uri_expected == reg_uri else None
     cls = C[{"fixed2": "Fixed2", "noargs": "NoArgs", "raises": "Raises", "kwonly": "KwOnly",
              "falsy": "Falsy"}[rdef]]
     caller.define(cls, wire_uri_expected)
@@ -511,7 +540,8 @@ def run_case(case, mode, tb, ser):
 
 FAMILY = {"app": "apperror", "app2": "apperror", "appsub": "apperror-subclass",
           "dec_args": "decorated", "dec_kw": "decorated", "dec_sub": "decorated-subclass",
-          "expl_args": "explicit", "expl_kw": "explicit", "undef_runtime": "undefined",
+          "expl_args": "explicit", "expl_kw": "explicit", "dec_invalid": "decorated-premapped-uri",
+          "expl_exceeded": "explicit-premapped-uri", "undef_runtime": "undefined",
           "undef_keyerror": "undefined", "undef_custom": "undefined", "undef_kw": "undefined"}
 
 
@@ -536,7 +566,8 @@ def job(a):
     stats = {k: 0 for k in ("error_on_wire", "caller_got_registered_class", "caller_got_generic",
                             "ctor_fallback_expected", "runtime_error_uri", "registered_uri",
                             "carried_uri", "traceback_forwarded", "kwargs_carried",
-                            "unserializable_reported", "violating_executions")}
+                            "unserializable_reported", "violating_executions",
+                            "redefined_class_surfaced", "premapped_uri_class_surfaced")}
     stats["mode:" + mode] = 0
     for s in set(ser):
         stats["ser:" + s] = 0
@@ -570,6 +601,10 @@ def job(a):
                 stats["caller_got_generic"] += 1
             elif obs["rcls"] and obs["outcome"][0] == obs["rcls"]:
                 stats["caller_got_registered_class"] += 1
+                if case["rdef"] == "redef":
+                    stats["redefined_class_surfaced"] += 1
+                if case["exc"] in ("dec_invalid", "expl_exceeded"):
+                    stats["premapped_uri_class_surfaced"] += 1
         if obs["rcls"] and obs["rcls_constructible"] is False:
             stats["ctor_fallback_expected"] += 1
         if bad:
@@ -603,9 +638,10 @@ def replay(a):
 MANIFEST = {
     "text": "Complete grid of (exception kind: ApplicationError with own URI incl. kwargs named "
             "like reserved parameters, ApplicationError subclass, @wamp.error-decorated incl. a "
-            "decorated subclass of a decorated class, define(cls, uri), unregistered builtin/custom, "
+            "decorated subclass of a decorated class, define(cls, uri), classes for the two pre-mapped "
+            "wamp.error.* URIs, unregistered builtin/custom, "
             "unserializable args) x (defined / not defined on the callee) x (caller: nothing / same "
-            "class / five classes with incompatible or refusing constructors) x 6 (quick) or 10 "
+            "class / a class defined after another one for the same URI / five classes with incompatible or refusing constructors) x 6 (quick) or 10 "
             "(thorough) args/kwargs payloads x traceback forwarding on/off x raise mode (sync, failed "
             "Deferred/Future, failed later, coroutine) x JSON/MsgPack/CBOR/UBJSON (thorough: also "
             "mixed pairs) x Twisted/asyncio, each executed on a fresh pair of real ApplicationSession "
